@@ -318,6 +318,8 @@ def shards(tier, seed):
         out.append(('single', op, 'content-type', 2, 'wsgi'))
     for op in ATTR_OPS:
         out.append(('single', op, None, 2, 'wsgi'))
+    # redirect(): its target becomes the Location header
+    out.append(('redirect', None, None, 3 if tier == 'quick' else 4, 'wsgi'))
     for op1 in DICT_OPS + ATTR_OPS:
         for op2 in DICT_OPS + ATTR_OPS:
             out.append(('pair', op1, op2, None, 'base'))
@@ -339,7 +341,7 @@ def bounds(tier, seed):
             'names': NAMES, 'statuses': STATUSES, 'entry_points': DICT_OPS + ATTR_OPS + CTOR_OPS, 'max_operations': 2}
 
 
-FLOORS = {'schedules': 1000, 'rejected': 1000, 'accepted': 1000, 'blacklisted_withheld': 100, 'non_ascii_roundtrip': 500, 'multi_valued': 100,
+FLOORS = {'redirects': 1000, 'schedules': 1000, 'rejected': 1000, 'accepted': 1000, 'blacklisted_withheld': 100, 'non_ascii_roundtrip': 500, 'multi_valued': 100,
           'wsgi_programs': 200}
 
 
@@ -409,6 +411,9 @@ def work(spec):
     elif kind == 'pair':
         # ... and values that compare equal although they are written differently (True / 1 / 1.0, False / 0 / 0.0, 5 / 5.0)
         vals = list(strings(1)) + NONSTR[:7] + NONSTR[9:11] + [1, 1.0, False, 0, 0.0, 5.0]
+        if a == 'content_type':
+            # the body's declared charset is the body's business: header values go out as UTF-8 read as Latin-1 whatever it says
+            vals = ['text/html; charset=ISO-8859-1', 'text/plain; charset=utf-16', 'text/html; charset=utf-16le', 'text/html; charset=ascii'] + vals[:9]
         names2 = [('X-A', 'X-A'), ('Content-Type', 'content-type'), ('Allow', 'X-A')]
         sts = [200, 304] if via == 'base' else [200]
         for n1, n2 in names2:
@@ -420,6 +425,36 @@ def work(spec):
                         eqfam = (n1, st) == ('X-A', 200) and all(isinstance(x, (int, float)) for x in (v1, v2))
                         run([(a, n1, v1), (b, n2, v2)], st, fresh=eqfam)
         core.add_sample(res, {'sequence': [a, b], 'via': via, 'values_each': len(vals)})
+    elif kind == 'redirect':
+        app = om.default_app()
+        target = {}
+
+        def go():
+            om.redirect(target['v'])
+        app.route('/c14-go', 'GET', go, overwrite=True)
+        for s in strings(n):
+            for prefix in ('', '/next', 'https://other.test/p', 'myapp://open/', 'mailto:a@b.test?subject='):
+                for pos in {0, len(prefix)}:
+                    v = prefix[:pos] + s + prefix[pos:]
+                    target['v'] = v
+                    cl = wsgi.call(app, wsgi.environ('GET', '/c14-go', headers={'Host': 'h.test'}))
+                    res['states'] += 1
+                    res['transitions'] += 1
+                    c['redirects'] += 1
+                    case = {'kind': 'redirect', 'target': v}
+                    bad = None
+                    if cl.escaped is not None:
+                        bad = f'exception escaped: {cl.escaped!r}'
+                    else:
+                        for k, hv in cl.headers or []:
+                            if type(k) is not str or type(hv) is not str or any(ch in hv for ch in '\r\n\0') or any(ch in k for ch in '\r\n\0'):
+                                bad = f'the header list handed to the server has {k!r}: {hv!r}'
+                    if any(ch in v for ch in '\r\n\0'):
+                        res['nontrivial'] += 1
+                    res['outcomes'].add(f'redirect -> {cl.code} {"ok" if bad is None else "BAD"}')
+                    if bad:
+                        core.add_violation(res, case, f'redirect({v!r}): status {cl.status}; {bad}', sig='redirect-split')
+        core.add_sample(res, {'redirect_targets': 'strings over the alphabet inserted before / after same-scheme, foreign-scheme and opaque targets'})
     elif kind == 'blacklist':
         # every spelling of every entity header that 204 / 304 must withhold, through every dictionary setter
         for st in (200, 204, 304):
@@ -445,6 +480,17 @@ def work(spec):
 
 def replay(case):
     om = sut.load(fresh=bool(case.get('fresh')))
+    if case.get('kind') == 'redirect':
+        app = om.default_app()
+
+        def go():
+            om.redirect(case['target'])
+        app.route('/c14-go', 'GET', go, overwrite=True)
+        cl = wsgi.call(app, wsgi.environ('GET', '/c14-go', headers={'Host': 'h.test'}))
+        for k, hv in cl.headers or []:
+            if type(hv) is not str or any(ch in hv for ch in '\r\n\0'):
+                return f'a handler calls redirect({case["target"]!r}): status {cl.status}, the header list handed to the server has {k!r}: {hv!r}'
+        return None
     if case.get('kind') == 'threads':
         x = run_threads(om, case['status'], case['how'], tuple(case['choices']))
         v = judge_threads(case['status'], x)
